@@ -677,6 +677,11 @@ impl Engine for C11 {
         run_case(case)
     }
 
+    fn isolate_every(&self, _unit: &UnitSpec) -> Option<u64> {
+        // process-wide or per-thread state left behind by earlier decodes must not change a result
+        Some(128)
+    }
+
     fn rule(&self) -> String {
         "seeded search: (accepted text: grammar-generated Zinc/Hayson with random legal spellings, accepted mutants, corpus files and windows) x (read schedule: chunk style incl. 1-byte, EINTR bursts and stalls placed at token boundaries) x (write schedule: short writes, EINTR) through chunked-read / lazy-rows / pipe-zinc / pipe-json; a case is non-trivial when the text was accepted and its schedule actually splits the stream or injects EINTR; distinct = distinct (scenario, text, schedule)".into()
     }
